@@ -16,11 +16,15 @@ CASE_TIMEOUT = 60
 RULE = ("kind 0: generated programs (raise site x surrounding statements from a pool with markup-like text, non-ASCII, tabs, multi-line "
         "strings and calls, backslash continuations, comments ending in a backslash, f-strings) x origin (file, exec'd source-less code "
         "under ordinary and markup-like file names, module-level code incl. a failure on line 1..4 of its file, a vendor module, files of "
-        "more than 1000 lines) x recursion depth drawn uniformly from 1..60 (self and mutual) x chained causes x 32 messages (incl. CR, FF, "
-        "VT, FS/GS/RS, NEL, U+2028 and a final line break) x 16 exception types (two with a broken __str__) x 4 verbosities x UTF-8 "
+        "more than 1000 lines) x recursion depth drawn uniformly from 1..60 (self and mutual) x chained causes (raise .. from, raised while "
+        "handling; and 14 shapes of __cause__ / __context__ chain linked after the program raised: plain, self-cause, self-context, cycles "
+        "of two by cause / by context, a mixed cycle of three, a cycle behind a link, from None over a context, 3000 links by cause / by "
+        "context, a cause with markup in name and message / with a broken __str__ / offering a solution) x 36 messages (incl. CR, FF, "
+        "VT, FS/GS/RS, NEL, U+2028, a final line break, the same escape twice, two and three backslashes before '<') x 16 exception types (two with a broken __str__) x 4 verbosities x UTF-8 "
         "on/off x plain/ANSI x simple/full x 8 ignore patterns (absolute prefix, everything, nothing, relative fragments that re.match "
         "must NOT honour, the program's own file) x working/home directory; kind 1: the highlighter on real Python files of the "
-        "repository and the standard library and on generated texts (tab-indented, non-ASCII, 1200 lines); kind 2: compact on frame "
+        "repository and the standard library and on generated texts (tab-indented, non-ASCII, 1200 lines, every fourth with CRLF and every "
+        "fourth with lone-CR line ends); kind 2: compact on frame "
         "sequences. non-trivial = distinct (site, origin, recursion, verbosity, message class) / file / sequence")
 TRUSTED = ["tokenize, inspect and crashtest (Inspector, Frame) are outside clikit: their outputs (token streams, frames, file contents) are "
            "INPUTS of the model, taken from the same run; the hypotheses the theorems put on token streams (wf_tokens) are checked on "
@@ -185,6 +189,9 @@ def gen(rng, tier, info):
             for fmt in ("plain", "ansi"):
                 cases.append(_case(origin="module", top=top, verb=v, fmt=fmt, tail=[0, 5] if top % 2 else []))
         cases.append(_case(origin="module-exec", top=top, verb=1))
+        # ... the failing line being the LAST line of a file that does not end with a line break
+        cases.append(_case(origin="module", top=top, verb=3, tail=[], nonl=1))
+        cases.append(_case(origin="module", top=top, verb=0, tail=[], nonl=1, fmt="ansi"))
     # files of more than 1000 lines: four-digit line numbers (and 999 -> 1000 inside one snippet)
     for pad, v, fmt in ((1200, 0, "plain"), (1200, 3, "ansi"), (990, 0, "plain"), (994, 3, "plain"), (1200, 1, "plain")):
         cases.append(_case(pad=pad, verb=v, fmt=fmt, head=[5], rec="self", depth=2))
@@ -226,11 +233,14 @@ def gen(rng, tier, info):
         text, site_line = build_source(cc)
         n = len(text.split("\n"))
         # a text read without newline translation: Windows line ends (every fourth text), a lone CR (every fourth)
+        if k % 3 == 2:
+            text = text.rstrip("\n") + "  # no line break at the end of the file"
+            n = len(text.split("\n"))
         if k % 4 == 1:
             text = text.replace("\n", "\r\n")
         elif k % 4 == 3:
             text = text.replace("\n", "\r")
-        for line in sorted(set([1, 3, site_line, n - 1] + ([999, 1000, 1001] if cc["pad"] else []))):
+        for line in sorted(set([1, 3, site_line, n - 1, n] + ([999, 1000, 1001] if cc["pad"] else []))):
             cases.append({"kind": 1, "file": "generated-%d" % k, "text": text, "line": line, "before": rng.choice([2, 4]), "after": rng.choice([2, 4]),
                           "utf8": rng.randrange(2)})
     n1 = len(cases) - n0
@@ -319,7 +329,7 @@ def build_source(c):
             out += ["raise EXC"]
         for p in c["tail"]:
             out += _expand(POOL[p], ind, 0)
-        return "\n".join(out) + "\n", c["top"]
+        return "\n".join(out) + ("" if c.get("nonl") else "\n"), c["top"]
     out += ["P%d = %d  # filler" % (i, i) for i in range(c.get("pad", 0))]
     for p in c["head"]:
         out += _expand(POOL[p], ind, 0)
